@@ -4,6 +4,7 @@ import (
 	"fmt"
 	"reflect"
 	"runtime"
+	"strings"
 	"sync"
 	"unsafe"
 
@@ -99,4 +100,11 @@ func MinSize(showSize int, fixOrigin []byte) int {
 		showSize = len(fixOrigin)
 	}
 	return showSize
+}
+
+// isRuntimeHelper 判断调用目标是否为 runtime 的辅助函数(duffcopy/duffzero/写屏障等)
+// 泛型实例化的 wrapper 在调用真正的函数体(shape function)之前, 可能会先调用这些辅助函数
+func isRuntimeHelper(target uintptr) bool {
+	f := runtime.FuncForPC(target)
+	return f != nil && strings.HasPrefix(f.Name(), "runtime.")
 }
